@@ -274,6 +274,20 @@ def r2_no_trace(cx):
             cx.require(ok, x, "%s: ctx.set is error bookkeeping on a failing path (followed by raise)" % name, construct=short(x))
 
 
+def r2c_context_helpers_read_only(cx):
+    """Combinators call ctx.line / ctx.col freely, also on alternatives that fail afterwards: those helpers must answer from the input alone.  A cursor or
+    cache kept on the context makes the answer for a later alternative depend on how far a failed one looked ahead."""
+    cx.rule("C19.R2", "combinators never write to the input and touch the context only through error bookkeeping", floor=19)
+    m = cx.repo.module(PS)
+    c = m.cls("Context", "C19.R2")
+    for f in [x for x in c.body if isinstance(x, FUNC_TYPES) and x.name not in ("__init__", "set")]:
+        if any(isinstance(d, ast.Name) and d.id == "contextmanager" for d in f.decorator_list):
+            continue        # push/pop helpers are checked by the pairing rule (C19.R8)
+        st = [x for x in ast.walk(f) if isinstance(x, (ast.Attribute, ast.Subscript)) and isinstance(x.ctx, (ast.Store, ast.Del)) and U(x).split(".")[0].split("[")[0] == "self"]
+        st += [x for x in ast.walk(f) if isinstance(x, ast.Call) and isinstance(x.func, ast.Attribute) and x.func.attr in feat.MUTATORS and U(x.func.value).startswith("self.")]
+        cx.require(not st, st[0] if st else f, "Context.%s answers from the input alone (keeps no cursor or cache on the context)" % f.name, construct=short(stmt_of(st[0]), 80) if st else "def Context.%s" % f.name)
+
+
 def _rule_defs(mod):
     """name -> value expr for module-level grammar assignments, including ``name <= expr``."""
     out = {}
@@ -700,6 +714,7 @@ def run(cx):
     cx.guard(r1_threading)
     cx.guard(r2_no_trace)
     cx.guard(r2b_stateless_parsers)
+    cx.guard(r2c_context_helpers_read_only)
     cx.guard(r3_taglang)
     cx.guard(r4_json)
     cx.guard(r4b_numbers)
